@@ -37,7 +37,7 @@ def main():
                 bad += 1
                 continue
             open(p, "w").write(orig.replace(m["old"], m["new"]))
-            env = dict(os.environ, VERIF_REPO=dst)
+            env = dict(os.environ, VERIF_REPO=dst, VERIF_NO_REPLAY_SEARCH="1")
             cmd = [os.path.join(ROOT, "check"), m["prop"], "--no-evidence"]
             for u in m.get("units", []):
                 cmd += ["--unit", u]
